@@ -43,6 +43,8 @@ type world struct {
 	o         vrt.Obj
 	open      map[*conn]bool // open server-side endpoints (the descriptor table of the model)
 	accepted  int
+	fdLimit   int // > 0: accept fails with EMFILE while this many server-side endpoints are open
+	emfile    int // accepts refused for lack of descriptors
 }
 
 var w *world
@@ -53,6 +55,12 @@ func Reset() {
 }
 
 func init() { Reset() }
+
+// SetDescriptorLimit: from now on an accept fails with EMFILE while n server-side endpoints are open (0 = no limit).
+func SetDescriptorLimit(n int) { w.fdLimit = n }
+
+// RefusedForDescriptors is the number of accepts that failed with EMFILE so far.
+func RefusedForDescriptors() int { return w.emfile }
 
 var errClosed = net.ErrClosed // "use of closed network connection"
 
@@ -150,6 +158,12 @@ func (l *listener) Accept() (net.Conn, error) {
 	l.o.Touch(1)
 	if l.closed {
 		return nil, opErr("accept", errClosed)
+	}
+	if w.fdLimit > 0 && len(OpenServerEndpoints()) >= w.fdLimit {
+		// descriptor exhaustion: accept(2) fails with EMFILE and the connection stays in the backlog
+		w.emfile++
+		vrt.Logf("env: accept fails, too many open files")
+		return nil, &net.OpError{Op: "accept", Net: "tcp", Err: os.NewSyscallError("accept4", syscall.EMFILE)}
 	}
 	c := l.backlog[0]
 	l.backlog = l.backlog[1:]
